@@ -98,6 +98,18 @@ Theorem C17_rvss_final_share_matches : forall G t i d, dealer_qualified G t d = 
 Proof. exact final_share_matches. Qed.
 Print Assumptions C17_rvss_final_share_matches.
 
+Theorem C17_rvss_qual_common : forall G t d1 d2, d_cm d1 = d_cm d2 -> d_ncompl d1 = d_ncompl d2 -> d_answers d1 = d_answers d2 ->
+  dealer_qualified G t d1 = dealer_qualified G t d2.
+Proof. exact rvss_qual_common. Qed.
+Print Assumptions C17_rvss_qual_common.
+
+(* ... and under binding that share lies on the dealer's committed polynomial: the premise view_ok of the Flip theorems *)
+Theorem C17_rvss_own_share_committed : forall G t i d mb f, m_cm mb = d_cm d -> committed G t mb f -> 0 <= i ->
+  dealer_qualified G t d = true -> my_complaint G i d = false \/ answered i d = true ->
+  exists sh, final_share G i d = Some sh /\ fst sh mod gq G = poly_eval (gq G) f (i + 1).
+Proof. exact own_share_committed. Qed.
+Print Assumptions C17_rvss_own_share_committed.
+
 (* the coin a party computes from its view = the sum of the committed shares of the members of Qual.
    committed mb f: the binding property of mb's Pedersen commitments (hypothesis; violating it yields log_g h);
    view_ok i mb f: party i's own share of mb lies on f (C17_rvss_final_share_matches) and the indices are below q - 1. *)
